@@ -58,7 +58,7 @@ class Prop(PropBase):
     id = 'C12'
     coq_imports = ['PV.Model.Alias']
     props_file = 'theories/Props/C12.v'
-    n_cases = {'quick': 400, 'thorough': 6000}
+    n_cases = {'quick': 400, 'thorough': 15000}
     case_timeout = 120
     rule = ('case = two generated pipelines (main 1-5 steps, other 1-3) of set / append / contextmerge / '
             'default / py / contextcopy / configvars steps with `in` containers, foreach and retry '
@@ -95,8 +95,8 @@ class Prop(PropBase):
 
     # ---------------------------------------------------------------- model
     def coq_check(self, case, obs):
-        if not L.in_model(case) or '"cycle"' in json.dumps(obs):
-            return '2%nat'      # sets / dynamic foreach / self-containing values: monitors only
+        if not L.in_model(case):
+            return '2%nat'      # sets / foreach over a !py reference: monitors only
         if case.get('threads'):
             return c12_run.coq_threads_check(case, obs)
         observed = '[' + '; '.join(L.coq_obs(r) for r in obs['runs']) + ']'
@@ -126,7 +126,16 @@ class Prop(PropBase):
             groups.insert(0, ('solo', [obs['solo']['main'], obs['solo']['other']]))
         first_fp = None
         for label, rs in groups:
+            concurrent = label.startswith('threads')
             for n, r in enumerate(rs):
+                if concurrent:
+                    # probes of one thread also see the other thread's effects: no per-step blame
+                    if r['sig_before'] != r['sig_after']:
+                        fp = first_fp or 'definition-mutated-only-when-concurrent'
+                        out.append(fail('definition-unchanged',
+                                        f'{label}: a shared definition changed while {r["pipe"]} ran; now '
+                                        f'differing: {r["changed_after"]}', fp))
+                    continue
                 for name, kind, paths in mutation_events(case, r):
                     fp = event_fingerprint(name, kind, paths)
                     first_fp = first_fp or fp
@@ -187,6 +196,11 @@ class Prop(PropBase):
             tags.append('threaded')
         if not L.in_model(case):
             tags.append('monitor-only')
+        else:
+            disc = all(L.disciplined(L.pipeline_ops(case, p)) for p in ('main', 'other'))
+            tags.append('disciplined' if disc else 'not-disciplined')
+            if disc and any(r['changed_after'] for r in rs):
+                tags.append('DISCIPLINED-BUT-DEFINITION-CHANGED')
         if len(rs) >= 2 and rs[0]['pipe'] == rs[1]['pipe'] and (
                 rs[0]['final'] != rs[1]['final'] or rs[0]['outcome'] != rs[1]['outcome']):
             tags.append('rerun-differs')
